@@ -140,6 +140,11 @@ impl ClientLoop {
 //@loop 0|            ensures response.wf(),
 //@loop 0|                // [C11] a reply whose transaction id differs from the outstanding request's never becomes its result
 //@loop 0|                response.header.tx_id matches Some(t) ==> t == tx_id,
+//@afterloop 0| // (the function is verified with loop_isolation(false), where Verus neither checks nor assumes a loop `ensures`:
+//@afterloop 0| //  the same two facts are therefore asserted right after the loop, on the real paths out of it)
+//@afterloop 0| assert(response.wf());
+//@afterloop 0| // [C11] a reply whose transaction id differs from the outstanding request's never becomes its result
+//@afterloop 0| assert(response.header.tx_id matches Some(t) ==> t == tx_id);
 //@beforeloop 0| broadcast use crate::axiom_nanos_nonneg; let ghost t_send = clk__.t;
 //@timer 0| // [C12] the request times out exactly when its own timeout has elapsed since transmission (one deadline, never re-armed)
 //@timer 0| assert(clk__.t == t_send + crate::nanos(request.timeout));
